@@ -2,10 +2,17 @@
 """tools/mutprompt.py <id> [n]  — creates the scratch worktree /tmp/mut-<id> and prints the prompt for a fresh sub-agent."""
 import json, subprocess, sys
 pid = sys.argv[1]; n = int(sys.argv[2]) if len(sys.argv) > 2 else 3
+tag = sys.argv[3] if len(sys.argv) > 3 else ''
 p = [json.loads(l) for l in open('/verif/properties.jsonl')]
 p = [x for x in p if x['id'] == pid][0]
-wt = '/tmp/mut-' + pid.lower()
-subprocess.run(['git', '-C', '/repo', 'worktree', 'add', wt, '-b', 'mut-' + pid.lower(), 'main'], capture_output=True)
+wt = '/tmp/mut' + tag + '-' + pid.lower()
+subprocess.run(['git', '-C', '/repo', 'worktree', 'add', wt, '-b', 'mut' + tag + '-' + pid.lower(), 'main'], capture_output=True)
+import glob, re
+tried = []
+for mf in sorted(glob.glob('/verif/seeded/%s-*/meta.json' % pid)):
+    mm = json.load(open(mf))
+    tried.append('- ' + re.sub(r'\s+', ' ', str(mm.get('summary', '')))[:260])
+already = ('\n\nAn earlier batch of changes has already been tried; do something DIFFERENT from all of these (other code paths, other clauses of the property, other kinds of trigger conditions):\n' + '\n'.join(tried)) if tag and tried else ''
 print(f"""You are testing how robust a Go project is against subtle regressions. The project is cube2222/octosql (a streaming SQL query engine, 2021 version); you have your own scratch git worktree of it at {wt} (work ONLY there; never touch /repo, and do not read or list anything under /verif). Go env for every shell call: `export GOFLAGS=-mod=mod GOPROXY=off GOSUMDB=off GOTOOLCHAIN=local` (no network is available). Building the CLI: `go build -o /tmp/{pid.lower()}-octosql .` in the worktree (about a minute the first time); run it with `OCTOSQL_NO_TELEMETRY=1 HOME=<some scratch dir>`.
 
 Here is a semantic property the project is supposed to satisfy:
@@ -17,6 +24,6 @@ Code it is anchored in: {', '.join(p['anchors']['files'])}
 Mechanisms meant to make it hold: {'; '.join(m['name'] + ' (' + m['where'] + ')' for m in p['anchors']['mechanism'])}
 Where it can be observed: {'; '.join(p['anchors'].get('observe_at', []))}
 
-Produce {n} different, independent changes to the project's source (each as its own patch against the current HEAD of your worktree) that each BREAK this property while (a) the project still compiles (`go build ./...`) and (b) its existing test suite still passes (`go test -vet=off -count=1 ./...`, about a minute). Make them realistic — the kind of slip a maintainer could make in a refactoring, a clean-up or an "optimisation" — and make each need something specific to manifest rather than failing on every input: a particular interleaving or ordering, a crash or fault at a particular point, a multi-step sequence of operations, an unusual input or boundary value, or two cooperating edits that each look fine alone. Avoid changes that ordinary use would expose at once. Spread the changes over different parts of the anchored code / different clauses of the property.
+Produce {n} different, independent changes to the project's source (each as its own patch against the current HEAD of your worktree) that each BREAK this property while (a) the project still compiles (`go build ./...`) and (b) its existing test suite still passes (`go test -vet=off -count=1 ./...`, about a minute). Make them realistic — the kind of slip a maintainer could make in a refactoring, a clean-up or an "optimisation" — and make each need something specific to manifest rather than failing on every input: a particular interleaving or ordering, a crash or fault at a particular point, a multi-step sequence of operations, an unusual input or boundary value, or two cooperating edits that each look fine alone. Avoid changes that ordinary use would expose at once. Spread the changes over different parts of the anchored code / different clauses of the property.{already}
 
 For each change i in 1..{n} write into {wt}/out/<i>/: `patch.diff` (output of `git diff` for that change alone, applicable with `git apply` to a clean HEAD), a demonstration (`demo_test.go`: a Go test you place temporarily inside the worktree to run it — or `demo.sh` if the property is observed through the CLI — that FAILS with the change applied and PASSES without it; verify both yourself; a `demo.sh` takes the path of a source tree as $1, builds whatever it needs from that tree into a temp dir, and exits 0 when the behaviour is right and non-zero when the property is violated), and `meta.json` {{"property":"{pid}","summary":...,"needs":"what specific input/sequence/schedule is needed for it to manifest","demo_pkg":"package directory the demo test must be copied into (if a Go test)","demo_run":"the -run regex or the command","files":[...]}}. Put a `go.mod` (`module demos`) into {wt}/out so the repo's own `go test ./...` ignores that directory. Never use `git stash` (it is shared between worktrees of the same repository). After generating each patch restore the worktree to a clean HEAD (`git checkout -- . && git clean -fdq -e out`). Final message: one short paragraph per change (what it does, why it breaks the property, what it needs to manifest) and confirmation that build + tests pass with each and that each demo fails with / passes without the change.""")
